@@ -312,7 +312,7 @@ class C30(Check):
             ".ctors/.dtors input section holds several entries; "
             "distinct by the per-TU (kind, placement, [(array, priority)]) structure")
     assumptions = ["GNU ld 2.40 is the reference for the order", "glibc's startup code runs the arrays in the ABI order"]
-    quick_cases = 320
+    quick_cases = 224
     thorough_cases = 8000
 
     def strategy(self, tier):
